@@ -246,10 +246,12 @@ func sameLabels(a, b map[string]string) bool {
 // trackDelivery keeps the informer-view cluster and the shadow in step with a delivered event (called when the
 // handler is spawned; handlers run one at a time, so the view does not move while one runs).
 func (w *World) trackDelivery(kind, typ, key string, oldJ, newJ []byte, rv uint64) {
-	if !w.armed("C16") || w.view == nil {
+	if !(w.armed("C16") || w.armed("C15")) || w.view == nil {
 		return
 	}
-	w.sinceJudge = append(w.sinceJudge, kind[:3]+":"+typ+":"+key)
+	if w.armed("C16") {
+		w.sinceJudge = append(w.sinceJudge, kind[:3]+":"+typ+":"+key)
+	}
 	switch kind {
 	case "namespaces":
 		if typ == "DELETED" {
@@ -314,11 +316,25 @@ func (w *World) trackDelivery(kind, typ, key string, oldJ, newJ []byte, rv uint6
 			w.S.Stop()
 		}
 		w.rebuildShadow()
+		w.fullSyncStarts("the handler of " + kind[:3] + ":" + typ + ":" + key)
 	}
 }
 
 // rebuildShadow is called when a full synchronisation (policy handler, Run) starts.
 func (w *World) rebuildShadow() { w.sh.rebuild(w.view) }
+
+// fullSyncStarts notes the state a full synchronisation of the history starts from (C15 judges it when it ends).
+func (w *World) fullSyncStarts(what string) {
+	if w.armed("C15") && w.stage == 0 && w.view != nil {
+		if len(w.K.PendingKinds()) > 0 || len(w.initialAdds) > 0 || w.cniPending != nil {
+			// the views lag behind the API: a synchronisation that lists pods through the client (informer not
+			// started) and one that reads the views would be held to different clusters; judged only when both agree
+			w.S.Stat("c15.in-history-not-judged-views-lag")
+			return
+		}
+		w.convK0, w.convPending, w.convWhat = observe(w.Kern), true, what
+	}
+}
 
 // gapOf names the event kind that is the cause of galaxy's membership (shadow) differing from the API state for
 // one (set, address) pair; -1 if none of the listed kinds is.
